@@ -237,25 +237,38 @@ func runC06Names(c *Ctx) {
 	}
 	// reader: type name -> node struct
 	nameToNode := map[string]string{}
-	eachInstr(dec, func(in ssa.Instruction) {
-		mi, ok := in.(*ssa.MakeInterface)
-		if !ok {
-			return
-		}
-		nodeT := namedName(mi.X.Type())
-		if !strings.HasPrefix(nodeT, "geojson") {
-			return
-		}
-		for _, g := range guardsAt(mi) {
-			bo, ok := g.Cond.(*ssa.BinOp)
-			if !ok || bo.Op != token.EQL || !g.Truth {
-				continue
+	// the decoder and the helpers split off from it after the baseline
+	decs := []*ssa.Function{dec}
+	seenDec := map[*ssa.Function]bool{dec: true}
+	for i := 0; i < len(decs); i++ {
+		eachCall(decs[i], func(ci ssa.CallInstruction) {
+			if cal := staticCallee(ci); cal != nil && isNewHelper(cal) && !seenDec[cal] {
+				seenDec[cal] = true
+				decs = append(decs, cal)
 			}
-			if s, ok := constString(bo.Y); ok {
-				nameToNode[s] = nodeT
+		})
+	}
+	for _, d := range decs {
+		eachInstr(d, func(in ssa.Instruction) {
+			mi, ok := in.(*ssa.MakeInterface)
+			if !ok {
+				return
 			}
-		}
-	})
+			nodeT := namedName(mi.X.Type())
+			if !strings.HasPrefix(nodeT, "geojson") {
+				return
+			}
+			for _, g := range guardsAt(mi) {
+				bo, ok := g.Cond.(*ssa.BinOp)
+				if !ok || !((bo.Op == token.EQL && g.Truth) || (bo.Op == token.NEQ && !g.Truth)) {
+					continue
+				}
+				if s, ok := constString(bo.Y); ok {
+					nameToNode[s] = nodeT
+				}
+			}
+		})
+	}
 	// converter: node struct -> Go type
 	nodeToType := map[string]string{}
 	for _, r := range returnsOf(conv) {
